@@ -6,6 +6,7 @@ import (
 	"net"
 	"os"
 	"path/filepath"
+	"syscall"
 	"time"
 
 	"google.golang.org/protobuf/types/known/timestamppb"
@@ -83,10 +84,13 @@ var sessionIdentifier = func() string {
 	return id
 }()
 
-// accepted applies the predicate session creation and loading apply
-// (Session.EnsureValid; the daemon's creation request checks the same three
-// configuration clauses, which is cross-checked here).
-func accepted(session, alpha, beta *synchronization.Configuration) (bool, string) {
+// accepted applies the predicate under which sessions are admitted:
+// Session.EnsureValid, which every loaded session must pass. The daemon's
+// creation request (an unexported method of pkg/service/synchronization, which
+// the harness module cannot import without new dependencies) checks the same
+// three configuration clauses today; clauses reports what those three clauses
+// say, so that a divergence between the two shows up in the evidence.
+func accepted(session, alpha, beta *synchronization.Configuration) (whole, clauses bool) {
 	s := &synchronization.Session{
 		Identifier:         sessionIdentifier,
 		Version:            synchronization.DefaultVersion,
@@ -97,12 +101,9 @@ func accepted(session, alpha, beta *synchronization.Configuration) (bool, string
 		ConfigurationAlpha: alpha,
 		ConfigurationBeta:  beta,
 	}
-	whole := s.EnsureValid() == nil
-	parts := session.EnsureValid(false) == nil && alpha.EnsureValid(true) == nil && beta.EnsureValid(true) == nil
-	if whole != parts {
-		return whole, fmt.Sprintf("Session.EnsureValid accepts=%v but the three configuration checks of the creation request accept=%v", whole, parts)
-	}
-	return whole, ""
+	whole = s.EnsureValid() == nil
+	clauses = session.EnsureValid(false) == nil && alpha.EnsureValid(true) == nil && beta.EnsureValid(true) == nil
+	return
 }
 
 // Verdict is the outcome of judging a case.
@@ -119,10 +120,14 @@ var endpointRoot string
 
 func judge(c *Case) (v Verdict) {
 	session, alpha, beta := c.Session.real(), c.Alpha.real(), c.Beta.real()
-	ok, inconsistency := accepted(session, alpha, beta)
-	if inconsistency != "" {
-		v.Violation = inconsistency
+	ok, clauses := accepted(session, alpha, beta)
+	if ok && !clauses {
+		// Session validation never admits what one of its own clauses refuses.
+		v.Violation = "Session.EnsureValid accepts a triple that one of the three configuration checks refuses"
 		return
+	}
+	if clauses && !ok {
+		v.Classes = append(v.Classes, "refused-by-session-validation-only")
 	}
 	v.Accepted = ok
 	for _, side := range []struct {
@@ -179,6 +184,32 @@ func judge(c *Case) (v Verdict) {
 	return
 }
 
+// socketPair returns the two ends of a kernel-buffered stream connection (like
+// the OS pipes the agent transports use; net.Pipe is unbuffered, which makes
+// the closing flushes of both sides wait for each other).
+func socketPair() (net.Conn, net.Conn, error) {
+	fds, err := syscall.Socketpair(syscall.AF_UNIX, syscall.SOCK_STREAM, 0)
+	if err != nil {
+		return nil, nil, err
+	}
+	var conns [2]net.Conn
+	for i, fd := range fds {
+		file := os.NewFile(uintptr(fd), fmt.Sprintf("socketpair-%d", i))
+		conn, err := net.FileConn(file)
+		file.Close()
+		if err != nil {
+			if i == 1 {
+				conns[0].Close()
+			} else {
+				syscall.Close(fds[1])
+			}
+			return nil, nil, err
+		}
+		conns[i] = conn
+	}
+	return conns[0], conns[1], nil
+}
+
 // initialiseEndpoints creates a real local endpoint and a real remote
 // endpoint pair with the configuration.
 func initialiseEndpoints(merged *synchronization.Configuration, alpha bool) (msg string) {
@@ -200,7 +231,10 @@ func initialiseEndpoints(merged *synchronization.Configuration, alpha bool) (msg
 
 	// The remote pair: the client sends the configuration, the server validates
 	// it and creates its own local endpoint.
-	clientSide, serverSide := net.Pipe()
+	clientSide, serverSide, err := socketPair()
+	if err != nil {
+		return "harness: " + err.Error()
+	}
 	served := make(chan error, 1)
 	go func() {
 		defer func() {
